@@ -1,5 +1,7 @@
 """C12 / F3: a found block must become part of the chain state the node serves, be stored and be broadcast."""
-import chainlib, _common
+import os, sys
+sys.path.insert(0, os.path.dirname(os.path.dirname(os.path.abspath(__file__))))
+from native import chainlib, _common
 _common.no_checkpoints()
 import time as _t
 from skepticoin.mining import MinerWatcher
